@@ -7,15 +7,15 @@ case "$1" in
 confirm)
   wt=$2; cd $wt || exit 2
   git apply -R --check _out/patch.diff 2>/dev/null || { git checkout -q -- . ; git apply _out/patch.diff || { echo "PATCH DOES NOT APPLY"; exit 2; }; }
-  bash _out/demo.sh >/tmp/seed_demo_with.log 2>&1; with=$?
+  bash _out/demo.sh >/tmp/seed_demo_with.$$.log 2>&1; with=$?
   git apply -R _out/patch.diff
-  bash _out/demo.sh >/tmp/seed_demo_without.log 2>&1; without=$?
+  bash _out/demo.sh >/tmp/seed_demo_without.$$.log 2>&1; without=$?
   git apply _out/patch.diff
   # suite with the change, demo files moved aside
-  mkdir -p /tmp/seed_aside; find . -name 'verif_seed_demo*' -not -path './_out/*' -exec mv {} /tmp/seed_aside/ \; 
-  go build ./... >/tmp/seed_suite.log 2>&1 && go test -vet=off -count=1 ./... >>/tmp/seed_suite.log 2>&1
-  fails=$(grep -c "^FAIL\s" /tmp/seed_suite.log)
-  failing=$(grep "^FAIL\s" /tmp/seed_suite.log | awk '{print $2}' | tr '\n' ' ')
+  mkdir -p /tmp/seed_aside.$$; find . -name 'verif_seed_demo*' -not -path './_out/*' -exec mv {} /tmp/seed_aside.$$/ \; 
+  go build ./... >/tmp/seed_suite.$$.log 2>&1 && go test -vet=off -count=1 ./... >>/tmp/seed_suite.$$.log 2>&1
+  fails=$(grep -c "^FAIL\s" /tmp/seed_suite.$$.log)
+  failing=$(grep "^FAIL\s" /tmp/seed_suite.$$.log | awk '{print $2}' | tr '\n' ' ')
   echo "demo_with_change=$with (want !=0) demo_without=$without (want 0) failing_packages=[$failing] (want only .../info)"
   ;;
 try)
